@@ -88,6 +88,9 @@ func EmbedX(l, x *core.Lane, kind int, parts [][]byte, surround bool) *Embedded 
 		if x != nil && x.Chance(1, 3) {
 			o.Top64 = 1
 		}
+		if x != nil && x.Chance(1, 4) {
+			o.CTBO = 1 + x.Intn(15)
+		}
 		c := DrawCR3(l, o)
 		e.Bytes = c.Bytes
 		e.Map = c.Map
